@@ -72,6 +72,7 @@ def showRes {α} (f : α → String) : Res α → String
   | .badUtf8 => "badutf8"
   | .badIndex => "badindex"
   | .unknownCodec n => "unknown " ++ hexOfString n
+  | .badArity => "unsupported"
 
 def f32round (bits64 : Nat) : Nat :=
   (Float.ofBits (UInt64.ofNat bits64)).toFloat32.toBits.toNat
@@ -94,7 +95,7 @@ def driverStep (s : St) (line : String) : St × String :=
       | none => (s, "typename-error")
       | some tr => match tyOfTree tr with
         | none => (s, "unsupported")
-        | some _ => (s, "ok")
+        | some ty => (s, if arityOk ty then "ok" else "unsupported")
   | "enc" :: t :: vtoks =>
     match stringOfHex t with
     | none => (s, "bad-op")
